@@ -755,8 +755,7 @@ Qed.
 
 Lemma CI_init a b c d : CI (init_state a b c d).
 Proof.
-  constructor; simpl; auto; try discriminate.
-  intros t c0 p H. discriminate.
+  constructor; simpl; auto; try discriminate; intros t c0 p H; discriminate.
 Qed.
 
 Theorem all_inv a b c d ls :
@@ -766,4 +765,703 @@ Proof.
   generalize (init_state a b c d).
   induction ls as [|l ls IH]; intros s HL HF HC; simpl; auto.
   apply IH; [apply LkS_step | apply FI_step | apply CI_step]; auto.
+Qed.
+
+(** ---- what a step appends to the trace: at most one return, and it is the newest event ---- *)
+Definition noret (new : list event) : Prop := forall t c r, ~ In (EvRet t c r) new.
+
+Definition Quiet (s s' : state) : Prop := exists new, trace s' = new ++ trace s /\ noret new.
+
+Definition RetsClose (s s' : state) (t : nat) : Prop :=
+  exists new, trace s' = EvRet t CClose ROk :: new ++ trace s /\ noret new /\
+    st_fsm s' = Closed /\ cont_closed s' = true /\
+    In (EvPub PEndAll) (trace s') /\ In (EvPub PEndCont) (trace s').
+
+Definition StepOK (s s' : state) (t : nat) (c : call) : Prop :=
+  Quiet s s' \/ (c = CClose /\ RetsClose s s' t) \/
+  (c <> CClose /\ exists r new, trace s' = EvRet t c r :: new ++ trace s /\ noret new).
+
+Lemma noret_app a b : noret a -> noret b -> noret (a ++ b).
+Proof. intros Ha Hb t c r Hin. apply in_app_or in Hin. destruct Hin; [eapply Ha | eapply Hb]; eauto. Qed.
+
+Lemma Quiet_refl s s' : trace s' = trace s -> Quiet s s'.
+Proof. intros E. exists []. split; auto. intros t c r []. Qed.
+
+Lemma Quiet_trans s s1 s' : Quiet s s1 -> Quiet s1 s' -> Quiet s s'.
+Proof.
+  intros (n1 & E1 & H1) (n2 & E2 & H2). exists (n2 ++ n1). split.
+  - rewrite E2, E1, app_assoc. reflexivity.
+  - apply noret_app; auto.
+Qed.
+
+Lemma StepOK_pre s s1 s' t c : Quiet s s1 -> StepOK s1 s' t c -> StepOK s s' t c.
+Proof.
+  intros HQ [H | [(Hc & new & E & Hn & Hrest) | (Hc & r & new & E & Hn)]].
+  - left. eapply Quiet_trans; eauto.
+  - right. left. split; auto. destruct HQ as (n1 & E1 & H1). exists (new ++ n1).
+    split; [|split; auto]. + rewrite E, E1, app_assoc. reflexivity. + apply noret_app; auto.
+  - right. right. split; auto. destruct HQ as (n1 & E1 & H1). exists r, (new ++ n1).
+    split. + rewrite E, E1, app_assoc. reflexivity. + apply noret_app; auto.
+Qed.
+
+Ltac noret_tac := let H := fresh in intros ? ? ? H; simpl in H; intuition discriminate.
+
+Ltac ext_tac :=
+  fsimpl;
+  match goal with
+  | |- exists new, ?tr = new ++ ?tr /\ _ => exists []
+  | |- exists new, ?a :: ?tr = new ++ ?tr /\ _ => exists [a]
+  | |- exists new, ?a :: ?b :: ?tr = new ++ ?tr /\ _ => exists [a; b]
+  | |- exists new, ?a :: ?b :: ?c :: ?tr = new ++ ?tr /\ _ => exists [a; b; c]
+  | |- exists new, ?a :: ?b :: ?c :: ?d :: ?tr = new ++ ?tr /\ _ => exists [a; b; c; d]
+  | |- exists new, ?a :: ?b :: ?c :: ?d :: ?e :: ?tr = new ++ ?tr /\ _ => exists [a; b; c; d; e]
+  | |- exists new, ?x :: ?tr = ?y :: new ++ ?tr /\ _ => exists []
+  | |- exists new, ?x :: ?a :: ?tr = ?y :: new ++ ?tr /\ _ => exists [a]
+  | |- exists new, ?x :: ?a :: ?b :: ?tr = ?y :: new ++ ?tr /\ _ => exists [a; b]
+  | |- exists new, ?x :: ?a :: ?b :: ?c :: ?tr = ?y :: new ++ ?tr /\ _ => exists [a; b; c]
+  | |- exists new, ?x :: ?a :: ?b :: ?c :: ?d :: ?tr = ?y :: new ++ ?tr /\ _ => exists [a; b; c; d]
+  end; split; [reflexivity | first [noret_tac | split; [noret_tac|]]].
+
+Ltac quiet_tac := unfold Quiet; ext_tac.
+
+Lemma SO_refuse s t c : c <> CClose -> StepOK s (refuse s t c) t c.
+Proof.
+  intros Hc. right. right. split; auto. unfold refuse.
+  destruct (is_cont c); [destruct (cont_closed (release s))|]; eexists; ext_tac.
+Qed.
+
+Lemma SO_close_trigger s t :
+  In (EvPub PEndAll) (trace s) -> StepOK s (close_trigger s t) t CClose.
+Proof.
+  intros Hin. unfold close_trigger. destruct (st_fsm s) eqn:Efs; try (left; quiet_tac; fail).
+  - destruct (runt s); left; quiet_tac.
+  - right. left. split; auto. unfold RetsClose. ext_tac. fsimpl. repeat split; auto.
+Qed.
+
+Lemma SO_enter_close s t :
+  (st_fsm s = Running -> run_finished s = Some false) -> StepOK s (enter_close s t) t CClose.
+Proof.
+  intros Hrf. unfold enter_close.
+  assert (HQ : Quiet s (publish s PEndAll)) by quiet_tac.
+  destruct (st_fsm (publish s PEndAll)) eqn:Efs; simpl in Efs;
+    try (eapply StepOK_pre; [exact HQ | apply SO_close_trigger; simpl; auto]; fail).
+  simpl. rewrite (Hrf Efs). left. quiet_tac.
+Qed.
+
+Lemma SO_enter s t c part2 :
+  (c = CClose -> part2 = true \/ st_fsm s = Created) ->
+  (st_fsm s = Running -> run_finished s = Some false) ->
+  StepOK s (enter s t c part2) t c.
+Proof.
+  intros Hcl Hrf. unfold enter. destruct c.
+  - unfold enter_start. destruct (st_fsm s); try (apply SO_refuse; discriminate). left. quiet_tac.
+  - unfold enter_run. destruct (st_fsm s); try (apply SO_refuse; discriminate). left. quiet_tac.
+  - unfold enter_reset. destruct (st_fsm s); try (apply SO_refuse; discriminate);
+      (destruct (o_stmt o); left; quiet_tac).
+  - destruct part2; [apply SO_enter_close; auto|].
+    destruct (Hcl eq_refl) as [?|Hcr]; [discriminate|].
+    rewrite enter_start_created by assumption. left. quiet_tac.
+  - unfold enter_run. destruct (st_fsm s); try (apply SO_refuse; discriminate). left. quiet_tac.
+  - unfold enter_run. destruct (st_fsm s); try (apply SO_refuse; discriminate). left. quiet_tac.
+  - unfold enter_run. destruct (st_fsm s); try (apply SO_refuse; discriminate). left. quiet_tac.
+  - left. apply Quiet_refl. reflexivity.
+  - left. apply Quiet_refl. reflexivity.
+Qed.
+
+Lemma SO_acquire s t c part2 :
+  (c = CClose -> part2 = true \/ st_fsm s = Created) ->
+  (st_fsm s = Running -> run_finished s = Some false) ->
+  StepOK s (acquire s t c part2) t c.
+Proof.
+  intros Hcl Hrf. unfold acquire.
+  destruct (holder s); [left; apply Quiet_refl; reflexivity|].
+  destruct (lockq s); [|left; apply Quiet_refl; reflexivity].
+  eapply StepOK_pre; [|apply SO_enter; simpl; auto]. apply Quiet_refl. reflexivity.
+Qed.
+
+Lemma FI_rf s : FI s -> st_fsm s = Running -> run_finished s = Some false.
+Proof.
+  intros [_ HS] Hr. destruct (Scal_running_not_none _ _ _ _ _ _ HS Hr) as (x & _ & _ & E). exact E.
+Qed.
+
+Definition Again (s s' : state) (t : nat) : Prop :=
+  nl_closed s = true /\ s' = set_trace s (EvRet t CClose ROk :: EvCall t CClose :: trace s).
+
+Lemma remove_absent ts t : find_task ts t = None -> remove_task ts t = ts.
+Proof.
+  induction ts as [|[t' x] ts IH]; simpl; auto.
+  destruct (Nat.eqb t t'); [discriminate|]. intros H. rewrite IH; auto.
+Qed.
+
+Lemma again_eq s t : find_task (tasks s) t = None ->
+  finish_call (set_trace s (EvCall t CClose :: trace s)) t CClose ROk =
+  set_trace s (EvRet t CClose ROk :: EvCall t CClose :: trace s).
+Proof.
+  intros Hf. unfold finish_call, add_ret. simpl. rewrite remove_absent by assumption.
+  destruct s; reflexivity.
+Qed.
+
+Lemma SO_do_call s t c :
+  FI s -> CI s -> find_task (tasks s) t = None ->
+  (c = CClose /\ Again s (do_call s t c) t) \/
+  ((c = CClose -> nl_closed s = false) /\ StepOK s (do_call s t c) t c).
+Proof.
+  intros HF HC Hfree. unfold do_call. rewrite Hfree.
+  pose proof (FI_rf _ HF) as Hrf.
+  set (s0 := set_trace s (EvCall t c :: trace s)).
+  assert (HQ0 : Quiet s s0) by (unfold s0; quiet_tac).
+  destruct c; cbn [nl_started nl_closed cont_closed running_process send_command set_trace s0].
+  - right. split; [try discriminate; auto|]. destruct (nl_started s).
+    + right. right. split; [discriminate|]. eexists. ext_tac.
+    + eapply StepOK_pre; [|apply SO_acquire; simpl; auto; discriminate]. quiet_tac.
+  - right. split; [try discriminate; auto|]. eapply StepOK_pre; [exact HQ0 | apply SO_acquire; simpl; auto; discriminate].
+  - right. split; [try discriminate; auto|]. eapply StepOK_pre; [exact HQ0 | apply SO_acquire; simpl; auto; discriminate].
+  - destruct (nl_closed s) eqn:Enc.
+    + left. split; auto. split; auto. apply again_eq; auto.
+    + right. split; [auto|]. simpl. destruct (nl_started s) eqn:Est.
+      * eapply StepOK_pre; [|apply SO_acquire; simpl; auto]. quiet_tac.
+      * destruct (ci_fresh _ HC Est) as (Hcr & _).
+        eapply StepOK_pre; [|apply SO_acquire; simpl; auto]. quiet_tac.
+  - right. split; [try discriminate; auto|]. destruct (cont_closed s).
+    + right. right. split; [discriminate|]. eexists. ext_tac.
+    + eapply StepOK_pre; [|apply SO_acquire; simpl; auto; discriminate]. quiet_tac.
+  - right. split; [try discriminate; auto|]. destruct (cont_closed s).
+    + right. right. split; [discriminate|]. eexists. ext_tac.
+    + eapply StepOK_pre; [|apply SO_acquire; simpl; auto; discriminate]. quiet_tac.
+  - right. split; [try discriminate; auto|]. eapply StepOK_pre; [exact HQ0 | apply SO_acquire; simpl; auto; discriminate].
+  - right. split; [try discriminate; auto|]. destruct (running_process s).
+    + left. quiet_tac.
+    + right. right. split; [discriminate|]. eexists. ext_tac.
+  - right. split; [try discriminate; auto|]. destruct (send_command s).
+    + left. quiet_tac.
+    + right. right. split; [discriminate|]. eexists. ext_tac.
+Qed.
+
+Lemma noret_only_cont new : only_cont new -> noret new.
+Proof. intros H t c r Hin. destruct (H _ Hin) as (b & E). discriminate. Qed.
+
+Lemma SO_do_step s t c p :
+  LkS s -> FI s -> CI s -> find_task (tasks s) t = Some (c, p) -> StepOK s (do_step s t) t c.
+Proof.
+  intros HL HF HC Ef. unfold do_step. rewrite Ef.
+  pose proof (FI_rf _ HF) as Hrf. pose proof HF as [HP HS].
+  pose proof (HP _ _ _ Ef) as Hok.
+  pose proof (lk_compat _ _ _ HL _ _ _ Ef) as Hc.
+  pose proof (ci_tasks _ HC _ _ _ Ef) as (Hq1 & Hq2 & Hq3 & Hq4).
+  destruct p; simpl in Hok; try (left; quiet_tac; fail).
+  - (* Granted1 *) apply SO_enter; auto. intros ->. destruct (Hq1 (or_intror eq_refl)) as (_ & Hn). congruence.
+  - (* Granted2 *) apply SO_enter; auto.
+  - (* S_G3 *)
+    assert (HQ : Quiet s (release s)) by (apply Quiet_refl; apply rl_trace).
+    destruct c; simpl in Hc; try discriminate.
+    + right. right. split; [discriminate|]. eexists. ext_tac.
+    + eapply StepOK_pre; [exact HQ|]. apply SO_acquire; auto. rewrite rl_fsm, rl_rf. exact Hrf.
+  - (* R_WaitStarted *) destruct (started_ev s); left; [quiet_tac | apply Quiet_refl; reflexivity].
+  - (* R_G *)
+    destruct c; simpl in Hc; try discriminate;
+      first [ left; quiet_tac | right; right; split; [discriminate|]; eexists; ext_tac ].
+  - (* Z_G1 *) destruct c; simpl in Hc; try discriminate. left. quiet_tac.
+  - (* Z_G1b *) unfold reset_reinit. destruct (st_fsm s); try (left; quiet_tac; fail).
+    destruct (runt s); left; quiet_tac.
+  - (* Z_WaitRunTask *) unfold reset_reinit. destruct (runt s); left; [apply Quiet_refl; reflexivity | quiet_tac].
+  - (* Z_G4 *) destruct c; simpl in Hc; try discriminate. right. right. split; [discriminate|]. eexists. ext_tac.
+  - (* C_WaitRunFinished *)
+    destruct c; simpl in Hc; try discriminate.
+    destruct (run_finished s) as [[|]|]; try (left; apply Quiet_refl; reflexivity).
+    apply SO_close_trigger. auto.
+  - (* C_WaitRunTask *) destruct (runt s); left; [apply Quiet_refl; reflexivity | quiet_tac].
+  - (* C_G4 *)
+    destruct c; simpl in Hc; try discriminate. right. left. split; auto.
+    unfold RetsClose. ext_tac. fsimpl.
+    destruct (st_fsm s); try discriminate. repeat split; auto.
+  - (* P_WaitRunFinished *)
+    destruct (run_finished s) as [[|]|]; try (left; apply Quiet_refl; reflexivity).
+    destruct c; simpl in Hc; try discriminate; right; right; (split; [discriminate|]); eexists; ext_tac.
+  - (* Sig_G *)
+    destruct c; simpl in Hc; try discriminate; right; right; (split; [discriminate|]); eexists; ext_tac.
+Qed.
+
+Lemma Quiet_run_finish s : Quiet s (run_finish s).
+Proof.
+  unfold run_finish. simpl. destruct (st_fsm s); try (apply Quiet_refl; reflexivity).
+  match goal with |- context [cont_finished ?y ?n] => destruct (cf_trace n y) as (new & Et & Hoc) end.
+  exists (new ++ [EvHook (mkHook HFinished Finished None None None)]). split.
+  - simpl. rewrite Et. simpl. rewrite <- app_assoc. reflexivity.
+  - apply noret_app; [apply noret_only_cont; auto | noret_tac].
+Qed.
+
+Lemma Quiet_step_run s : Quiet s (do_step_run s).
+Proof.
+  unfold do_step_run. destruct (runt s) as [[]|]; try (apply Quiet_refl; reflexivity); try quiet_tac.
+  - destruct (run_arg s); [apply Quiet_refl; reflexivity | apply Quiet_run_finish].
+  - simpl. destruct (run_arg s); [quiet_tac|].
+    eapply Quiet_trans; [|apply Quiet_run_finish]. apply Quiet_refl. reflexivity.
+  - destruct (run_call_pending s); [apply Quiet_refl; reflexivity|].
+    destruct (pending_exit s); [|apply Quiet_refl; reflexivity]. simpl.
+    destruct (run_arg s); [quiet_tac|].
+    eapply Quiet_trans; [|apply Quiet_run_finish]. apply Quiet_refl. reflexivity.
+  - apply Quiet_run_finish.
+Qed.
+
+Lemma Quiet_child_exit s o : Quiet s (do_child_exit s o).
+Proof. unfold do_child_exit. destruct (alive s); apply Quiet_refl; reflexivity. Qed.
+
+(** ---- A. safety of close ---- *)
+Definition closed_down (s : state) : Prop :=
+  st_fsm s = Closed /\ alive s = 0%nat /\ pending_exit s = None /\ runt s = None /\
+  cont_closed s = true /\ In (EvPub PEndAll) (trace s) /\ In (EvPub PEndCont) (trace s).
+
+Lemma appended_ext s s' new : trace s' = new ++ trace s -> appended s s' = rev new.
+Proof.
+  intros E. unfold appended. rewrite E, app_length.
+  replace (length new + length (trace s) - length (trace s))%nat with (length new) by lia.
+  rewrite firstn_app, firstn_all, Nat.sub_diag. simpl. rewrite app_nil_r. reflexivity.
+Qed.
+
+Lemma Quiet_no_ret s s' t c r : Quiet s s' -> ~ In (EvRet t c r) (appended s s').
+Proof.
+  intros (new & E & Hn) Hin. rewrite (appended_ext _ _ _ E) in Hin. apply in_rev in Hin. eapply Hn; eauto.
+Qed.
+
+Lemma StepOK_ret s s' t0 c t r :
+  StepOK s s' t0 c -> In (EvRet t CClose r) (appended s s') ->
+  t = t0 /\ c = CClose /\ r = ROk /\ RetsClose s s' t0.
+Proof.
+  intros [HQ | [(Hc & HR) | (Hc & r0 & new & E & Hn)]] Hin.
+  - exfalso. eapply Quiet_no_ret; eauto.
+  - destruct HR as (new & E & Hn & Hrest).
+    change (EvRet t0 CClose ROk :: new ++ trace s) with ((EvRet t0 CClose ROk :: new) ++ trace s) in E.
+    pose proof Hin as Hin'. rewrite (appended_ext _ _ _ E) in Hin'. apply in_rev in Hin'.
+    destruct Hin' as [Heq | Hin'].
+    + inversion Heq; subst. repeat split; auto. exists new. auto.
+    + exfalso. eapply Hn; eauto.
+  - change (EvRet t0 c r0 :: new ++ trace s) with ((EvRet t0 c r0 :: new) ++ trace s) in E.
+    rewrite (appended_ext _ _ _ E) in Hin. apply in_rev in Hin.
+    destruct Hin as [Heq | Hin].
+    + inversion Heq; subst. congruence.
+    + exfalso. eapply Hn; eauto.
+Qed.
+
+Lemma closed_scal s : FI s -> st_fsm s = Closed -> alive s = 0%nat /\ pending_exit s = None /\ runt s = None.
+Proof.
+  intros [_ HS] Hc. assert (Hr : runt s = None) by (eapply Scal_idle; eauto; congruence).
+  pose proof (sc_child _ _ _ _ _ _ HS) as Hch. rewrite Hr in Hch. simpl in Hch. tauto.
+Qed.
+
+Lemma RetsClose_down s s' t : FI s' -> RetsClose s s' t -> closed_down s'.
+Proof.
+  intros HF (new & E & Hn & Hc & Hcc & Hi1 & Hi2).
+  destruct (closed_scal _ HF Hc) as (Ha & Hp & Hr). repeat split; auto.
+Qed.
+
+Lemma close_returns s l t r :
+  LkS s -> FI s -> CI s -> In (EvRet t CClose r) (appended s (step s l)) ->
+  r = ROk /\
+  ((closed_down (step s l) /\
+    ((l = Call t CClose /\ nl_closed s = false /\ find_task (tasks s) t = None) \/
+     (l = Step t /\ exists p, find_task (tasks s) t = Some (CClose, p)))) \/
+   (l = Call t CClose /\ nl_closed s = true /\ find_task (tasks s) t = None /\
+    step s l = set_trace s (EvRet t CClose ROk :: EvCall t CClose :: trace s))).
+Proof.
+  intros HL HF HC Hin. pose proof (FI_step s l HL HF) as HF'.
+  destruct l as [t0 c | t0 | | o]; simpl in *.
+  - destruct (find_task (tasks s) t0) eqn:Ef.
+    + exfalso. unfold do_call in Hin. rewrite Ef in Hin.
+      eapply Quiet_no_ret; [|exact Hin]. apply Quiet_refl. reflexivity.
+    + destruct (SO_do_call s t0 c HF HC Ef) as [(-> & Hnc & Heq) | (Hnc & HS)].
+      * rewrite Heq in Hin.
+        rewrite (appended_ext s _ [EvRet t0 CClose ROk; EvCall t0 CClose]) in Hin by reflexivity.
+        simpl in Hin. destruct Hin as [Hin | [Hin | []]]; [discriminate|]. inversion Hin; subst.
+        split; auto.
+      * destruct (StepOK_ret _ _ _ _ _ _ HS Hin) as (-> & -> & -> & HR).
+        split; auto. left. split; [eapply RetsClose_down; eauto|]. left. auto.
+  - destruct (find_task (tasks s) t0) as [[c p]|] eqn:Ef.
+    + destruct (StepOK_ret _ _ _ _ _ _ (SO_do_step s t0 c p HL HF HC Ef) Hin) as (-> & -> & -> & HR).
+      split; auto. left. split; [eapply RetsClose_down; eauto|]. right. eauto.
+    + exfalso. unfold do_step in Hin. rewrite Ef in Hin.
+      eapply Quiet_no_ret; [|exact Hin]. apply Quiet_refl. reflexivity.
+  - exfalso. eapply Quiet_no_ret; [|exact Hin]. apply Quiet_step_run.
+  - exfalso. eapply Quiet_no_ret; [|exact Hin]. apply Quiet_child_exit.
+Qed.
+
+Lemma fsm_refuse s t c : st_fsm (refuse s t c) = st_fsm s.
+Proof. unfold refuse. destruct (is_cont c); [destruct (cont_closed (release s))|]; simpl; apply rl_fsm. Qed.
+
+Lemma fsm_enter_closed s t c b : st_fsm s = Closed -> st_fsm (enter s t c b) = Closed.
+Proof.
+  intros Hc. unfold enter, enter_start, enter_run, enter_reset, enter_close, close_trigger.
+  destruct c; try destruct b; simpl; rewrite ?Hc; simpl; rewrite ?fsm_refuse, ?rl_fsm; auto.
+Qed.
+
+Lemma fsm_acquire_closed s t c b : st_fsm s = Closed -> st_fsm (acquire s t c b) = Closed.
+Proof.
+  intros Hc. unfold acquire. destruct (holder s); auto. destruct (lockq s); auto.
+  apply fsm_enter_closed. exact Hc.
+Qed.
+
+Lemma fsm_closed_step s l : LkS s -> FI s -> st_fsm s = Closed -> st_fsm (step s l) = Closed.
+Proof.
+  intros HL HF Hc. destruct l as [t c | t | | o]; simpl.
+  - unfold do_call. destruct (find_task (tasks s) t); auto.
+    destruct c; cbn [nl_started nl_closed cont_closed running_process send_command set_trace];
+      repeat match goal with |- context [if ?b then _ else _] => destruct b end;
+      try (apply fsm_acquire_closed); simpl; auto.
+  - unfold do_step. destruct (find_task (tasks s) t) as [[c p]|] eqn:Ef; auto.
+    destruct HF as [HP HS]. pose proof (HP _ _ _ Ef) as Hok. rewrite Hc in Hok.
+    destruct p; simpl in Hok; try discriminate; auto; try (apply fsm_enter_closed; auto).
+    + simpl. rewrite rl_fsm. auto.
+    + destruct (run_finished s) as [[|]|]; auto.
+  - unfold do_step_run. destruct HF as [_ HS].
+    assert (Hr : runt s = None) by (eapply Scal_idle; eauto; congruence). rewrite Hr. auto.
+  - unfold do_child_exit. destruct (alive s); auto.
+Qed.
+
+Lemma run_labels_app s l1 l2 : run_labels s (l1 ++ l2) = run_labels (run_labels s l1) l2.
+Proof. unfold run_labels. apply fold_left_app. Qed.
+
+Lemma inv_run s ls : LkS s -> FI s -> CI s ->
+  LkS (run_labels s ls) /\ FI (run_labels s ls) /\ CI (run_labels s ls).
+Proof.
+  revert s. induction ls as [|l ls IH]; intros s HL HF HC; simpl; auto.
+  apply IH; [apply LkS_step | apply FI_step | apply CI_step]; auto.
+Qed.
+
+Lemma closed_absorbing s ls : LkS s -> FI s -> CI s -> st_fsm s = Closed -> st_fsm (run_labels s ls) = Closed.
+Proof.
+  revert s. induction ls as [|l ls IH]; intros s HL HF HC Hc; simpl; auto.
+  apply IH; [apply LkS_step | apply FI_step | apply CI_step | apply fsm_closed_step]; auto.
+Qed.
+
+Lemma close_again_noop s t :
+  CI s -> st_fsm s = Closed -> find_task (tasks s) t = None ->
+  step s (Call t CClose) = set_trace s (EvRet t CClose ROk :: EvCall t CClose :: trace s).
+Proof.
+  intros HC Hc Hf. simpl. unfold do_call. rewrite Hf.
+  cbn [nl_closed set_trace]. rewrite (ci_closed _ HC Hc). apply again_eq. exact Hf.
+Qed.
+
+(** ---- A, for every reachable state ---- *)
+Theorem close_returns_reachable : forall stmt start th md ls l t r,
+  let s := run_labels (init_state stmt start th md) ls in
+  In (EvRet t CClose r) (appended s (step s l)) ->
+  r = ROk /\
+  ((closed_down (step s l) /\
+    ((l = Call t CClose /\ nl_closed s = false /\ find_task (tasks s) t = None) \/
+     (l = Step t /\ exists p, find_task (tasks s) t = Some (CClose, p)))) \/
+   (l = Call t CClose /\ nl_closed s = true /\ find_task (tasks s) t = None /\
+    step s l = set_trace s (EvRet t CClose ROk :: EvCall t CClose :: trace s))).
+Proof.
+  intros stmt start th md ls l t r s. destruct (all_inv stmt start th md ls) as (HL & HF & HC).
+  apply close_returns; auto.
+Qed.
+
+Theorem close_never_raises : forall stmt start th md ls l t r,
+  let s := run_labels (init_state stmt start th md) ls in
+  In (EvRet t CClose r) (appended s (step s l)) ->
+  r <> RAttributeError /\ r <> RMachineError /\ r <> RRuntimeError /\ r <> RAssertionError.
+Proof.
+  intros stmt start th md ls l t r s Hin.
+  destruct (close_returns_reachable stmt start th md ls l t r Hin) as (-> & _).
+  repeat split; discriminate.
+Qed.
+
+Theorem close_idempotent : forall stmt start th md ls,
+  let s := run_labels (init_state stmt start th md) ls in
+  st_fsm s = Closed ->
+  (forall ls', st_fsm (run_labels s ls') = Closed) /\
+  (forall ls' t, let s' := run_labels s ls' in
+     find_task (tasks s') t = None ->
+     step s' (Call t CClose) = set_trace s' (EvRet t CClose ROk :: EvCall t CClose :: trace s')).
+Proof.
+  intros stmt start th md ls s Hc. destruct (all_inv stmt start th md ls) as (HL & HF & HC).
+  split.
+  - intros ls'. apply closed_absorbing; auto.
+  - intros ls' t s' Hf. destruct (inv_run s ls' HL HF HC) as (HL' & HF' & HC').
+    apply close_again_noop; auto. apply closed_absorbing; auto.
+Qed.
+
+Theorem no_child_after_close : forall stmt start th md ls,
+  let s := run_labels (init_state stmt start th md) ls in
+  st_fsm s = Closed ->
+  alive s = 0%nat /\ runt s = None /\ pending_exit s = None /\
+  forall ls', alive (run_labels s ls') = 0%nat /\ runt (run_labels s ls') = None.
+Proof.
+  intros stmt start th md ls s Hc. destruct (all_inv stmt start th md ls) as (HL & HF & HC).
+  destruct (closed_scal _ HF Hc) as (Ha & Hp & Hr). repeat split; auto.
+  - destruct (inv_run s ls' HL HF HC) as (HL' & HF' & HC').
+    apply (closed_scal _ HF'). apply closed_absorbing; auto.
+  - destruct (inv_run s ls' HL HF HC) as (HL' & HF' & HC').
+    apply (closed_scal _ HF'). apply closed_absorbing; auto.
+Qed.
+
+(** ---- B. progress: a measure that every internal step decreases ---- *)
+Definition rank (p : pc) : nat :=
+  match p with
+  | WaitLock1 => 40 | Granted1 => 39 | S_G1 => 38 | S_G2 => 37 | S_G3 => 36
+  | WaitLock2 => 35 | Granted2 => 34 | C_WaitRunFinished => 33 | C_WaitRunTask => 32 | C_G3 => 31 | C_G4 => 30
+  | Z_G1 => 25 | Z_G1b => 24 | Z_WaitRunTask => 23 | Z_G3 => 22 | Z_G4 => 21
+  | R_WaitStarted => 20 | R_G => 19 | P_WaitRunFinished => 18
+  | Sig_G => 1
+  end%nat.
+
+Definition rank_r (r : option rpc) : nat :=
+  match r with
+  | None => 0 | Some RT_New => 10 | Some RT_Created => 7 | Some RT_G_start => 6 | Some RT_WaitChild => 5
+  | Some RT_G_end => 4 | Some RT_G_fin => 3 | Some RT_G_cs => 2
+  end%nat.
+
+Fixpoint mu_tasks (ts : ttab) : nat :=
+  match ts with
+  | [] => 0
+  | (_, (_, p)) :: r => rank p + mu_tasks r
+  end%nat.
+
+Definition pe_n (o : option outcome) : nat := match o with Some _ => 1 | None => 0 end.
+
+Definition sc (s : state) : nat := (rank_r (runt s) + 2 * alive s + pe_n (pending_exit s))%nat.
+
+Definition mu (s : state) : nat := (mu_tasks (tasks s) + sc s)%nat.
+
+Lemma rank_pos p : (1 <= rank p)%nat.
+Proof. destruct p; simpl; lia. Qed.
+
+Lemma mt_put_existing ts t c0 p0 c p :
+  find_task ts t = Some (c0, p0) ->
+  (mu_tasks (put_task ts t (c, p)) + rank p0 = mu_tasks ts + rank p)%nat.
+Proof.
+  induction ts as [|[t' [c' p']] ts IH]; simpl; [discriminate|].
+  destruct (Nat.eqb t t') eqn:E; simpl.
+  - intros H. inversion H; subst. lia.
+  - intros H. specialize (IH H). lia.
+Qed.
+
+Lemma mt_remove ts t c0 p0 :
+  find_task ts t = Some (c0, p0) -> (mu_tasks (remove_task ts t) + rank p0 <= mu_tasks ts)%nat.
+Proof.
+  induction ts as [|[t' [c' p']] ts IH]; simpl; [discriminate|].
+  destruct (Nat.eqb t t') eqn:E; simpl.
+  - intros H. inversion H; subst. clear IH.
+    assert (Hle : forall l, (mu_tasks (remove_task l t) <= mu_tasks l)%nat).
+    { induction l as [|[t1 [c1 p1]] l IHl]; simpl; auto. destruct (Nat.eqb t t1); simpl; lia. }
+    specialize (Hle ts). lia.
+  - intros H. specialize (IH H). lia.
+Qed.
+
+Lemma rank_granted p : (rank (granted_pc p) <= rank p)%nat.
+Proof. destruct p; simpl; lia. Qed.
+
+Lemma mt_rel q ts : (mu_tasks (rel_tasks q ts) <= mu_tasks ts)%nat.
+Proof.
+  unfold rel_tasks. destruct q as [|t1 q]; auto.
+  destruct (find_task ts t1) as [[c p]|] eqn:E; auto.
+  pose proof (mt_put_existing ts t1 c p c (granted_pc p) E). pose proof (rank_granted p). lia.
+Qed.
+
+Lemma find_rel_other q ts t :
+  (forall t1 q', q = t1 :: q' -> t1 <> t) -> find_task (rel_tasks q ts) t = find_task ts t.
+Proof.
+  intros Hn. unfold rel_tasks. destruct q as [|t1 q']; auto.
+  destruct (find_task ts t1) as [[c p]|]; auto. apply find_put_neq. intros ->. eapply Hn; eauto.
+Qed.
+
+Lemma holder_find_rel s t :
+  LkS s -> holder s = Some t -> find_task (rel_tasks (lockq s) (tasks s)) t = find_task (tasks s) t.
+Proof.
+  intros HL Hh. apply find_rel_other. intros t1 q' Eq. unfold LkS in HL. rewrite Hh in HL.
+  eapply Lk_head_neq; eauto.
+Qed.
+
+(** the three shapes of a step of task [t] *)
+Lemma mu_inside s s' t c p c' p' :
+  find_task (tasks s) t = Some (c, p) -> tasks s' = put_task (tasks s) t (c', p') ->
+  (rank p' + sc s' < rank p + sc s)%nat -> (mu s' < mu s)%nat.
+Proof.
+  intros Hf Et Hlt. unfold mu. rewrite Et. pose proof (mt_put_existing _ _ _ _ c' p' Hf). lia.
+Qed.
+
+Lemma mu_leave s s' t c p :
+  LkS s -> holder s = Some t -> find_task (tasks s) t = Some (c, p) ->
+  tasks s' = remove_task (rel_tasks (lockq s) (tasks s)) t -> sc s' = sc s -> (mu s' < mu s)%nat.
+Proof.
+  intros HL Hh Hf Et Es. unfold mu. rewrite Et, Es.
+  pose proof (holder_find_rel _ _ HL Hh) as Hfr. rewrite Hf in Hfr.
+  pose proof (mt_remove _ _ _ _ Hfr). pose proof (mt_rel (lockq s) (tasks s)). pose proof (rank_pos p). lia.
+Qed.
+
+Lemma mu_leave_put s s' t c p c' p' :
+  LkS s -> holder s = Some t -> find_task (tasks s) t = Some (c, p) ->
+  tasks s' = put_task (rel_tasks (lockq s) (tasks s)) t (c', p') -> sc s' = sc s ->
+  (rank p' < rank p)%nat -> (mu s' < mu s)%nat.
+Proof.
+  intros HL Hh Hf Et Es Hlt. unfold mu. rewrite Et, Es.
+  pose proof (holder_find_rel _ _ HL Hh) as Hfr. rewrite Hf in Hfr.
+  pose proof (mt_put_existing _ _ _ _ c' p' Hfr). pose proof (mt_rel (lockq s) (tasks s)). lia.
+Qed.
+
+Lemma mu_free_leave s s' t c p :
+  find_task (tasks s) t = Some (c, p) -> tasks s' = remove_task (tasks s) t -> sc s' = sc s -> (mu s' < mu s)%nat.
+Proof.
+  intros Hf Et Es. unfold mu. rewrite Et, Es. pose proof (mt_remove _ _ _ _ Hf). pose proof (rank_pos p). lia.
+Qed.
+
+Ltac mu_in Hf := eapply mu_inside; [exact Hf | fsimpl; reflexivity | unfold sc; fsimpl; simpl; try lia].
+Ltac mu_lv HL Hh Hf := eapply mu_leave; [exact HL | exact Hh | exact Hf | fsimpl; reflexivity | unfold sc; fsimpl; reflexivity].
+Ltac mu_lp HL Hh Hf := eapply mu_leave_put; [exact HL | exact Hh | exact Hf | fsimpl; reflexivity | unfold sc; fsimpl; reflexivity | simpl; lia].
+
+Lemma mu_refuse s t c c0 p :
+  LkS s -> holder s = Some t -> find_task (tasks s) t = Some (c0, p) -> (mu (refuse s t c) < mu s)%nat.
+Proof.
+  intros HL Hh Hf. unfold refuse.
+  destruct (is_cont c); [destruct (cont_closed (release s))|]; mu_lv HL Hh Hf.
+Qed.
+
+Lemma mu_close_trigger s t c0 p :
+  LkS s -> holder s = Some t -> find_task (tasks s) t = Some (c0, p) -> (33 <= rank p)%nat ->
+  (mu (close_trigger s t) < mu s)%nat.
+Proof.
+  intros HL Hh Hf Hr. unfold close_trigger, close_enter_closed.
+  destruct (st_fsm s); try (mu_in Hf; fail).
+  - destruct (runt s) eqn:Er; mu_in Hf.
+  - mu_lv HL Hh Hf.
+Qed.
+
+Lemma mu_enter_close s t c0 p :
+  LkS s -> FI s -> holder s = Some t -> find_task (tasks s) t = Some (c0, p) -> (34 <= rank p)%nat ->
+  (mu (enter_close s t) < mu s)%nat.
+Proof.
+  intros HL HF Hh Hf Hr. unfold enter_close.
+  assert (Hmu : mu (publish s PEndAll) = mu s) by reflexivity.
+  assert (HL1 : LkS (publish s PEndAll)) by exact HL.
+  destruct (st_fsm (publish s PEndAll)) eqn:Efs; simpl in Efs;
+    try (rewrite <- Hmu; eapply mu_close_trigger; eauto; lia).
+  simpl. rewrite (FI_rf _ HF Efs). mu_in Hf.
+Qed.
+
+Lemma mu_enter (s : state) (t : nat) (c : call) (part2 : bool) (p : pc) :
+  LkS s -> FI s -> holder s = Some t -> find_task (tasks s) t = Some (c, p) ->
+  p = (if part2 then Granted2 else Granted1) -> compat c p = true ->
+  (mu (enter s t c part2) < mu s)%nat.
+Proof.
+  intros HL HF Hh Hf Hp Hc.
+  assert (Hrun : (mu (enter_run s t c) < mu s)%nat).
+  { unfold enter_run. destruct (st_fsm s) eqn:Efs; try (eapply mu_refuse; eauto).
+    assert (Hr : runt s = None) by (destruct HF as [_ HS]; eapply Scal_idle; eauto; congruence).
+    mu_in Hf. rewrite Hr. destruct part2; subst p; simpl; lia. }
+  assert (Hst : part2 = false -> (mu (enter_start s t c) < mu s)%nat).
+  { intros ->. unfold enter_start. destruct (st_fsm s); try (eapply mu_refuse; eauto).
+    mu_in Hf. subst p. simpl. lia. }
+  unfold enter. destruct c; auto; try (destruct part2; subst p; discriminate).
+  - destruct part2; [subst p; discriminate | auto].
+  - unfold enter_reset. destruct (st_fsm s); try (eapply mu_refuse; eauto);
+      (destruct (o_stmt o); mu_in Hf; destruct part2; subst p; simpl; lia).
+  - destruct part2; auto. eapply mu_enter_close; eauto. subst p. simpl. lia.
+Qed.
+
+Lemma requeue_inv s t :
+  LkS s -> FI s -> holder s = Some t -> lockq s = [] ->
+  LkS (set_pc (set_holder (release s) (Some t)) t CClose Granted2) /\
+  FI (set_pc (set_holder (release s) (Some t)) t CClose Granted2).
+Proof.
+  intros HL HF Hh Eq. pose proof HL as HL0. unfold LkS in HL0. rewrite Hh in HL0.
+  pose proof (Lk_release_forget _ _ _ HL0) as HFg. destruct HF as [HP HS]. split.
+  - unfold LkS. simpl. rewrite ?release_lockq, ?release_tasks, ?Eq. rewrite Eq in HFg. apply Lk_readd_take; auto.
+  - split; simpl.
+    + rewrite rl_fsm, release_tasks. apply PcOk_release_put; auto.
+    + rewrite rl_fsm, rl_runt, rl_rf, rl_alive, rl_pe, rl_ra. exact HS.
+Qed.
+
+Lemma mu_do_step s t : LkS s -> FI s -> (mu (do_step s t) < mu s)%nat \/ do_step s t = s.
+Proof.
+  intros HL HF. unfold do_step. destruct (find_task (tasks s) t) as [[c p]|] eqn:Ef; auto.
+  pose proof (lk_compat _ _ _ HL _ _ _ Ef) as Hc.
+  assert (Hhold : locked_pc p = true -> holder s = Some t) by (intros Hl; eapply (lk_holder_of _ _ _ HL); eauto).
+  destruct p; simpl in Hhold; try specialize (Hhold eq_refl); auto.
+  - left. eapply mu_enter; eauto.
+  - left. eapply mu_enter; eauto.
+  - left. mu_in Ef.
+  - left. mu_in Ef.
+  - (* S_G3 *) left. destruct c; simpl in Hc; try discriminate.
+    + mu_lv HL Hhold Ef.
+    + destruct (lockq s) as [|t1 q] eqn:Eq.
+      * rewrite acquire_free by (rewrite ?release_holder, ?release_lockq, Eq; reflexivity).
+        destruct (requeue_inv s t HL HF Hhold Eq) as (HL2 & HF2).
+        set (s2 := set_pc (set_holder (release s) (Some t)) t CClose Granted2) in *.
+        assert (H1 : (mu s2 < mu s)%nat).
+        { unfold s2. eapply mu_leave_put; [exact HL | exact Hhold | exact Ef | fsimpl; reflexivity
+                                          | unfold sc; fsimpl; reflexivity | simpl; lia]. }
+        assert (H2 : (mu (enter s2 t CClose true) < mu s2)%nat).
+        { eapply mu_enter; eauto; try reflexivity. unfold s2. simpl. apply find_put_eq. }
+        lia.
+      * rewrite (acquire_busy _ _ _ _ t1) by (rewrite release_holder, Eq; reflexivity).
+        eapply mu_leave_put; [exact HL | exact Hhold | exact Ef | fsimpl; rewrite Eq; reflexivity
+                             | unfold sc; fsimpl; reflexivity | simpl; lia].
+  - destruct (started_ev s); auto. left. mu_in Ef.
+  - (* R_G *) left. destruct c; simpl in Hc; try discriminate; first [mu_lv HL Hhold Ef | mu_lp HL Hhold Ef].
+  - destruct c; simpl in Hc; try discriminate. left. mu_in Ef.
+  - (* Z_G1b *) left. unfold reset_reinit. destruct (st_fsm s); try (mu_in Ef; fail).
+    destruct (runt s); mu_in Ef.
+  - unfold reset_reinit. destruct (runt s); auto. left. mu_in Ef.
+  - left. mu_in Ef.
+  - left. mu_lv HL Hhold Ef.
+  - (* C_WaitRunFinished *) destruct (run_finished s) as [[|]|]; auto.
+    left. eapply mu_close_trigger; eauto; simpl; lia.
+  - unfold close_enter_closed. destruct (runt s); auto. left. mu_in Ef.
+  - left. mu_in Ef.
+  - left. mu_lv HL Hhold Ef.
+  - (* P_WaitRunFinished *) destruct (run_finished s) as [[|]|]; auto.
+    left. eapply mu_free_leave; [exact Ef | reflexivity | reflexivity].
+  - left. eapply mu_free_leave; [exact Ef | reflexivity | reflexivity].
+Qed.
+
+Lemma sc_run_finish s : (sc (run_finish s) <= 3 + 2 * alive s + pe_n (pending_exit s))%nat.
+Proof.
+  unfold run_finish. simpl. destruct (st_fsm s); unfold sc; simpl; rewrite ?cf_alive, ?cf_pe; simpl; lia.
+Qed.
+
+Lemma tasks_run_finish s : tasks (run_finish s) = tasks s.
+Proof. apply (slk_run_finish s). Qed.
+
+Lemma mu_step_run s : (mu (do_step_run s) < mu s)%nat \/ do_step_run s = s.
+Proof.
+  unfold do_step_run. destruct (runt s) as [x|] eqn:Er; auto.
+  assert (Hrf : forall s1, tasks s1 = tasks s -> alive s1 = alive s ->
+                           (pe_n (pending_exit s1) <= pe_n (pending_exit s))%nat ->
+                           (4 <= rank_r (runt s) + pe_n (pending_exit s) - pe_n (pending_exit s1))%nat ->
+                           (mu (run_finish s1) < mu s)%nat).
+  { intros s1 Et Ea Hp Hr. unfold mu. rewrite tasks_run_finish, Et.
+    pose proof (sc_run_finish s1). unfold sc at 2. rewrite Ea in *. lia. }
+  destruct x.
+  - left. destruct (run_arg s).
+    + unfold mu, sc. simpl. rewrite Er. simpl. lia.
+    + apply Hrf; auto. rewrite Er. simpl. lia.
+  - left. simpl. destruct (run_arg s).
+    + unfold mu, sc. simpl. rewrite Er. simpl. lia.
+    + apply Hrf; auto. rewrite Er. simpl. lia.
+  - left. unfold mu, sc. simpl. rewrite Er. simpl. lia.
+  - destruct (run_call_pending s); auto. destruct (pending_exit s) as [o|] eqn:Epe; auto.
+    left. simpl. destruct (run_arg s).
+    + unfold mu, sc. simpl. rewrite Er, Epe. simpl. lia.
+    + apply Hrf; auto; simpl; rewrite ?Er, ?Epe; simpl; lia.
+  - left. apply Hrf; auto. rewrite Er. simpl. lia.
+  - left. unfold mu, sc. simpl. rewrite Er. simpl. lia.
+  - left. unfold mu, sc. simpl. rewrite Er. simpl. lia.
+Qed.
+
+Lemma mu_child_exit s o : (mu (do_child_exit s o) < mu s)%nat \/ do_child_exit s o = s.
+Proof.
+  unfold do_child_exit. destruct (alive s) as [|n] eqn:Ea; auto.
+  left. unfold mu, sc. simpl. rewrite Ea. destruct (pending_exit s); simpl; lia.
+Qed.
+
+Definition internal (l : label) : bool := match l with Call _ _ => false | _ => true end.
+
+Theorem measure_decreases : forall stmt start th md ls l,
+  let s := run_labels (init_state stmt start th md) ls in
+  internal l = true -> step s l <> s -> (mu (step s l) < mu s)%nat.
+Proof.
+  intros stmt start th md ls l s Hi Hne. destruct (all_inv stmt start th md ls) as (HL & HF & HC).
+  fold s in HL, HF. destruct l; try discriminate; simpl in *.
+  - destruct (mu_do_step s t HL HF); auto. contradiction.
+  - destruct (mu_step_run s); auto. contradiction.
+  - destruct (mu_child_exit s o); auto. contradiction.
 Qed.
